@@ -20,7 +20,7 @@ Definition fuel_of (p : program) : nat := 40 + 12 * length p.
 Definition rounds_of (p : program) : nat := 20 + 6 * length p.
 
 Definition init (p : program) : S :=
-  {| nodes := repeat ns0 (length p); ints := []; serial := 0; last_error := None; block_tag := None; scheduled := 0; marks := [] |}.
+  {| nodes := repeat ns0 (length p); ints := []; serial := 0; last_error := None; block_tag := None; scheduled := 0; marks := []; macros := [] |}.
 
 Fixpoint run_ticks (p : program) (main : stack) (s : S) (now : Z) (ts : list tick_in) : output :=
   match ts with
